@@ -183,10 +183,8 @@ func (c *Channel) Open() (reterr error) {
 func (c *Channel) Close() error {
 	c.l.Info("channel closing...")
 
-	verifYield("C_errs")
-
-	close(c.Errs)
-
+	// c.Errs is deliberately not closed: the read loop may be about to send on it, it gives up that
+	// send once it sees the done signal instead
 	ch := make(chan struct{})
 
 	verifYield("C_flag")
